@@ -1436,6 +1436,84 @@ package gocql
 //@   ensures !(host.dataCenter != d.localDC) ==> same(d.hosts[2].list.v, old(d.hosts[2].list.v))
 
 // ---------------------------------------------------------------------------
+// request/response multiplexing on one connection (C01, C06): conn.go exec / recv / addCall /
+// releaseStream / closeWithError. Per-function contracts; the shared state is the calls table
+// (stream id -> waiting call, under c.mu) and the stream allocator (C08).
+// ---------------------------------------------------------------------------
+
+// every entry of the calls table is a call waiting under its own stream id, with its channels
+//@ predicate calls_wf(c): forall(s, haskey(c.calls, s) ==> c.calls[s] != nil && c.calls[s].streamID == s && c.calls[s].resp != nil && c.calls[s].timeout != nil && 1 <= s && s < c.streams.NumStreams)
+
+//@ func (c *Conn) addCall
+//@   props C01 C06
+//@   requires call != nil && call.resp != nil && call.timeout != nil && c.streams != nil && 1 <= call.streamID && call.streamID < c.streams.NumStreams
+//@   requires calls_wf(c) && (!c.closed ==> c.calls != nil)
+//@   assume ErrConnectionClosed != nil
+//@   ensures calls_wf(c) && (!c.closed ==> c.calls != nil)
+// registered under its own stream id, only when the connection is open and nobody waits there
+//@   ensures result == nil ==> !old(c.closed) && (!old(haskey(c.calls, call.streamID)) || old(c.calls[call.streamID]) == nil) && haskey(c.calls, call.streamID) && c.calls[call.streamID] == call && map_unchanged_except(c.calls, call.streamID)
+//@   ensures result != nil ==> map_unchanged_except(c.calls)
+//@   ensures c.closed == old(c.closed)
+
+// the connection's allocator is a well-formed IDGenerator (established by streams.New, C08)
+//@ predicate streams_wf(g): g != nil && (g.numBuckets == 2 || g.numBuckets == 512) && len(g.streams) == int(g.numBuckets) && g.NumStreams == int(g.numBuckets)*64
+
+//@ func (recv StreamObserverContext) StreamFinished
+//@   interface
+//@   trusted observers only observe
+//@   preserves_types Conn callReq IDGenerator Session framer
+
+//@ func (recv StreamObserverContext) StreamAbandoned
+//@   interface
+//@   trusted observers only observe
+//@   preserves_types Conn callReq IDGenerator Session framer
+
+//@ func (recv StreamObserverContext) StreamStarted
+//@   interface
+//@   trusted observers only observe
+//@   preserves_types Conn callReq IDGenerator Session framer
+
+//@ func (recv StreamObserver) StreamContext
+//@   interface
+//@   trusted observers only observe
+//@   preserves_types Conn callReq IDGenerator Session framer
+
+// releasing: the call's own stream id goes back to the allocator, once
+//@ func (c *Conn) releaseStream
+//@   props C06 C01
+//@   count_calls Clear
+//@   requires call != nil && streams_wf(c.streams) && 1 <= call.streamID && call.streamID < c.streams.NumStreams
+//@   before Clear: arg0 == c.streams && arg1 == call.streamID
+//@   ensures Clear_calls == 1
+//@   ensures c.streams == old(c.streams) && call.streamID == old(call.streamID) && streams_wf(c.streams) && c.closed == old(c.closed) && c.calls == old(c.calls) && map_unchanged_except(c.calls)
+
+//@ func (recv FrameHeaderObserver) ObserveFrameHeader
+//@   interface
+//@   trusted observers only observe
+//@   preserves_types Conn callReq IDGenerator Session framer frameHeader
+
+//@ func (c *Conn) discardFrame
+//@   props C01
+//@   trusted skips the body of a frame nobody waits for (io.CopyN on the connection reader)
+//@   preserves_types Conn callReq IDGenerator Session
+
+// The receive step (one frame): the response is handed to exactly the call registered under the
+// stream id of its header - on that call's own channel, carrying the frame read for that header -
+// and the registration is removed; if that caller has given up (its timeout channel is closed) the
+// stream goes back to the allocator now, not earlier; a response nobody waits for is discarded.
+//@ func (c *Conn) recv
+//@   props C01 C06
+//@   count_calls readFrame discardFrame releaseStream
+//@   requires c.conn != nil && c.r != nil && streams_wf(c.streams) && c.logger != nil && c.session != nil && ctx != nil
+//@   requires calls_wf(c) && (!c.closed ==> c.calls != nil)
+//@   assume ErrConnectionClosed != nil
+//@   before_send[C01] ch == call.resp && old(haskey(c.calls, head.stream)) && call == old(c.calls[head.stream]) && call.streamID == head.stream && val.framer == framer && val.err == err && releaseStream_calls == 0
+//@   before[C01] releaseStream: arg0 == c && arg1 == call && call == old(c.calls[head.stream]) && old(haskey(c.calls, head.stream))
+//@   ensures calls_wf(c) && c.streams == old(c.streams) && releaseStream_calls <= 1
+//@   at_return[C01] call != nil ==> !haskey(c.calls, head.stream) && map_unchanged_except(c.calls, head.stream) && call == old(c.calls[head.stream])
+//@   at_return[C01] discardFrame_calls == 1 ==> !old(haskey(c.calls, head.stream)) || old(c.calls[head.stream]) == nil
+
+// ---------------------------------------------------------------------------
 // prepared statements (C14): prepared_cache.go, conn.go prepareStatement / executeQuery
 // ---------------------------------------------------------------------------
 
